@@ -198,7 +198,9 @@ def near_end(v, rng):
 
 LAM_SPECIAL = [0.0, 1.0, 2.0, -1.0, -2.0, 0.5, -0.5, 3.0, -3.0, 1e-9, -1e-9, 1e-8,
                2.0 + 1e-9, 2.0 - 1e-9, 0.25, 1.5, 2.5, -0.1, 0.1]
-LAM_ODD = [1e-7, -1e-6, 1e-5, 2.0 + 1e-5, 2.0 - 1e-6, 2.0 + 3e-5, 1.0 + 1e-9]
+LAM_ODD = [1e-7, -1e-6, 1e-5, 2.0 + 1e-5, 2.0 - 1e-6, 2.0 + 3e-5, 1.0 + 1e-9,
+           # next to the special value 0 (the literal power formula cancels there), down to denormal magnitudes
+           1e-12, -1e-13, 1e-17, -1e-17, 1e-300]
 SHIFTS = [0.0, 0.5, 1.0, -1.5, 10.0, 1e-3, 100.0, -100.0]
 
 
